@@ -22,7 +22,7 @@ package vgirpc
 //
 //@ func (*HttpServer).resolveCall
 //@   property C15
-//@   requires h != nil && cursor != nil
+//@   # (h and cursor are dereferenced: non-nil by partial correctness)
 //@   at call (*callStateCache).put assert [stamp] arg1 == cursor.CallID && arg2 == auth && arg4 == data.CreatedAt
 //@   at call (*callStateCache).put assert [checked] sinceNs(unixTime(data.CreatedAt, 0)) <= h.tokenTTL && data.CallID == cursor.CallID
 //
